@@ -645,3 +645,44 @@ Proof.
   split; [exact item_lt_irrefl|]. split; [exact item_lt_asym|]. split; [|exact item_nlt_trans].
   intros x y z. rewrite !item_lt_spec. lia.
 Qed.
+
+(* ------------------------------------------------------------------ several queues *)
+Lemma mrun_cons qs a ops :
+  mrun qs (a :: ops) =
+  (fst (mrun (fst (mstep qs a)) ops), snd (mstep qs a) :: snd (mrun (fst (mstep qs a)) ops)).
+Proof.
+  simpl. destruct (mstep qs a) as [qs1 x]. simpl. destruct (mrun qs1 ops) as [qs2 xs]. reflexivity.
+Qed.
+
+Lemma mstep_fst qs a : fst (mstep qs a) = upd (fst a) (fst (step (nth (fst a) qs eq_new) (snd a))) qs.
+Proof. unfold mstep. destruct (step (nth (fst a) qs eq_new) (snd a)); reflexivity. Qed.
+
+Lemma mstep_snd qs a : snd (mstep qs a) = snd (step (nth (fst a) qs eq_new) (snd a)).
+Proof. unfold mstep. destruct (step (nth (fst a) qs eq_new) (snd a)); reflexivity. Qed.
+
+Lemma mrun_length ops : forall qs, length (fst (mrun qs ops)) = length qs.
+Proof.
+  induction ops as [|a ops IH]; intros qs; auto.
+  rewrite mrun_cons. cbn [fst]. rewrite IH, mstep_fst. apply upd_length.
+Qed.
+
+Lemma queues_independent ops : forall qs i, (i < length qs)%nat ->
+  nth i (fst (mrun qs ops)) eq_new = fst (run (nth i qs eq_new) (proj i ops)) /\
+  proj_results i ops (snd (mrun qs ops)) = snd (run (nth i qs eq_new) (proj i ops)).
+Proof.
+  induction ops as [|a ops IH]; intros qs i Hi.
+  - simpl. auto.
+  - rewrite mrun_cons. cbn [fst snd proj_results]. unfold proj. cbn [filter].
+    assert (Hl : (i < length (fst (mstep qs a)))%nat) by (rewrite mstep_fst, upd_length; exact Hi).
+    destruct (IH (fst (mstep qs a)) i Hl) as (H1 & H2).
+    destruct (Nat.eqb_spec (fst a) i) as [E|E].
+    + cbn [map]. fold (proj i ops). rewrite run_cons. cbn [fst snd].
+      rewrite H1, H2, mstep_fst, mstep_snd, E, nth_upd_same by exact Hi. auto.
+    + fold (proj i ops). rewrite H1, H2, mstep_fst, nth_upd_other by exact E. auto.
+Qed.
+
+Lemma multi_reachable ops qs i : (i < length qs)%nat ->
+  reachable (nth i qs eq_new) -> reachable (nth i (fst (mrun qs ops)) eq_new).
+Proof.
+  intros Hi Hr. destruct (queues_independent ops qs i Hi) as (-> & _). now apply reachable_run.
+Qed.
